@@ -275,6 +275,34 @@ pub proof fn lemma_div_pos_bound(a: int, b: int)
 
 } // verus!
 
+// ---- spec functions written from the property statements (mathematical integers) ---------------
+verus! {
+/// floor(x * n / d)
+pub open spec fn mul_div_floor(x: int, n: int, d: int) -> int recommends d > 0 { (x * n) / d }
+/// ceil(x * n / d)
+pub open spec fn mul_div_ceil(x: int, n: int, d: int) -> int recommends d > 0 { (x * n + d - 1) / d }
+/// ceil(a / d)
+pub open spec fn div_ceil(a: int, d: int) -> int recommends d > 0 { (a + d - 1) / d }
+pub open spec fn fit_u(v: int) -> Option<N> { if 0 <= v <= umax() { Some(N(v as u128)) } else { None } }
+pub open spec fn fit_s(v: int) -> Option<S> { if imin() <= v <= imax() { Some(S(v as i128)) } else { None } }
+pub open spec fn sign(x: int) -> int { if x < 0 { -1 } else { 1 } }
+/// fixed-point integer power: pow_fixed(b,0)=UNIT, pow_fixed(b,k+1)=floor(pow_fixed(b,k)*b/UNIT)
+pub open spec fn pow_fixed(b: int, k: nat) -> int decreases k {
+    if k == 0 { uunit() } else { (pow_fixed(b, (k - 1) as nat) * b) / uunit() }
+}
+/// `pow_fixed(b, j)` fits the unsigned type for every j <= k (the loop of checked_pow_fixed
+/// fails at the first intermediate that does not fit).
+pub open spec fn pow_fixed_fits(b: int, k: nat) -> bool decreases k {
+    if k == 0 { true } else { pow_fixed_fits(b, (k - 1) as nat) && pow_fixed(b, k) <= umax() }
+}
+} // verus!
+
+// =================================================================================================
+// C01  Fixed-point arithmetic is exact with the documented rounding (instance: u128 / i128, 20 dec)
+// Every unit below is the function text of /repo, extracted on this run; the contract above each
+// body is written from the property statement: result == integer spec in the documented
+// direction, failure exactly on the stated set.
+// =================================================================================================
 // ---- ASSUMED CONTRACT on a dependency: ruint::aliases::U256 (ruint 1.x) ------------------------
 // `U256` is an opaque 256-bit unsigned integer. Assumed: `From<u128>` is value preserving;
 // `*` is exact when the product is < 2^256 (precondition; ruint wraps otherwise); `/` is floor
@@ -342,34 +370,6 @@ impl TryFrom<U256> for u128 {
 }
 } // verus!
 
-// ---- spec functions written from the property statements (mathematical integers) ---------------
-verus! {
-/// floor(x * n / d)
-pub open spec fn mul_div_floor(x: int, n: int, d: int) -> int recommends d > 0 { (x * n) / d }
-/// ceil(x * n / d)
-pub open spec fn mul_div_ceil(x: int, n: int, d: int) -> int recommends d > 0 { (x * n + d - 1) / d }
-/// ceil(a / d)
-pub open spec fn div_ceil(a: int, d: int) -> int recommends d > 0 { (a + d - 1) / d }
-pub open spec fn fit_u(v: int) -> Option<N> { if 0 <= v <= umax() { Some(N(v as u128)) } else { None } }
-pub open spec fn fit_s(v: int) -> Option<S> { if imin() <= v <= imax() { Some(S(v as i128)) } else { None } }
-pub open spec fn sign(x: int) -> int { if x < 0 { -1 } else { 1 } }
-/// fixed-point integer power: pow_fixed(b,0)=UNIT, pow_fixed(b,k+1)=floor(pow_fixed(b,k)*b/UNIT)
-pub open spec fn pow_fixed(b: int, k: nat) -> int decreases k {
-    if k == 0 { uunit() } else { (pow_fixed(b, (k - 1) as nat) * b) / uunit() }
-}
-/// `pow_fixed(b, j)` fits the unsigned type for every j <= k (the loop of checked_pow_fixed
-/// fails at the first intermediate that does not fit).
-pub open spec fn pow_fixed_fits(b: int, k: nat) -> bool decreases k {
-    if k == 0 { true } else { pow_fixed_fits(b, (k - 1) as nat) && pow_fixed(b, k) <= umax() }
-}
-} // verus!
-
-// =================================================================================================
-// C01  Fixed-point arithmetic is exact with the documented rounding (instance: u128 / i128, 20 dec)
-// Every unit below is the function text of /repo, extracted on this run; the contract above each
-// body is written from the property statement: result == integer spec in the documented
-// direction, failure exactly on the stated set.
-// =================================================================================================
 verus! {
 
 // ---- leaf: impl MulDiv for u128 (via ruint U256, assumed contract inc/u256.rs) ---------------------
@@ -428,6 +428,7 @@ proof { broadcast use axiom_u256_view, axiom_u256_range; lemma_mul_upper_bound(*
 }
 
 } // verus!
+
 // ---- N-level wrappers over the leaf + trait-default methods of gmsol_model::num (R3) -----------
 verus! {
 
